@@ -79,10 +79,13 @@ def gen_plan(rng, i: int, tier: str) -> dict:
             ops.append({"op": "identity", "sids": rng.choice(([offline.SID_A], [offline.SID_A, offline.SID_B], [offline.SID_B], []))})
         elif r < 0.75:
             rk = focus_rk if rng.random() < 0.8 else 1 - focus_rk
+            cancel = rng.choice((None,) * 9 + (rng.choice((1, 300, 3000, 20000)),)) if fl == "async" and grp is not None else None
             sid = focus_sid if rng.random() < 0.8 else rng.choice(SIDS)
             ops.append({"op": "unprotect", "fl": fl, "net": net, "group": grp,
                         "blob": {"rk": rk, "sid": sid, "pos": pos_choice(rng.random() < 0.8), "mode": rng.choice(("nonce", "nonce", "pub")),
                                  "trailing": rng.random() < 0.2, "data": rng.choice((1, 20))}})
+            if cancel is not None:
+                ops[-1]["cancel_after_us"] = cancel
         else:
             ops.append({"op": "protect", "fl": fl, "net": net, "group": grp, "sid": focus_sid if rng.random() < 0.8 else rng.choice(SIDS),
                         "rk": rng.choice((None, focus_rk, focus_rk)), "data": 12})
@@ -114,6 +117,12 @@ def judge(plan, tr: P.Trace):
         out = ot.outcome
         now = gkdi.interval_of_filetime(ot.clock_ft)
         online = op.get("net") == "online"
+        if out.kind == "cancelled":
+            if op.get("cancel_after_us") is None:
+                return common.violation("C10", "termination", op["fl"] + "-concurrent", "cancelled-though-nobody-cancelled-it", "", "",
+                                        f"op {ot.idx} {kind} ended with CancelledError although only another call of the group was cancelled by its caller"), probes
+            probes["cancelled_by_caller"] = probes.get("cancelled_by_caller", 0) + 1
+            continue  # the caller gave up on this call; the others are judged as usual
         # ---- (1) termination -------------------------------------------------
         if out.kind in ("budget", "blocks", "spin"):
             et, frame = drive.exc_sig(out)
@@ -199,14 +208,15 @@ class C10(common.Check):
             "current/previous L0 x positions incl. corners and DC-future), protect (root key id named or not), clock advance or step back, change of "
             "the caller's group membership}, plus long offline histories over 17..24 L0 epochs, each offline or "
             "online, sync or async; consecutive async operations of a group run concurrently under the PRNG scheduler (latencies up to 200 ms "
-            "decide completion order), PRNG segmentation. Oracle: termination within 300 KDF calls; outcome in the set a fresh cache (with the "
+            "decide completion order; a caller may cancel its call at a PRNG-chosen virtual instant; connects slower than the 5 s timeout), PRNG "
+            "segmentation. Oracle: termination within 300 KDF calls; outcome in the set a fresh cache (with the "
             "root keys loaded so far) allows; zero GetKey at the DC for operations started after covering material was obtained. "
             "Non-trivial = plan with >= 2 API operations on the same cache; distinct = distinct plan (the schedule is a function of the seed).")
     components = {"client": "real (public API both flavours, KeyCache, key derivation)", "DC": "model (RefDC) with request log",
                   "scheduler / transport / clock": "simulated (SimLoop external-completion order from the PRNG, ready queue FIFO)",
                   "security context": "stub (StubCtx)", "reference model": "analytic fresh-cache model + ref.cms/ref.gkdi"}
     assumptions = ["'fresh cache' = a new KeyCache holding the root keys loaded so far", "two overlapping operations may both fetch: RPC economy is judged only for operations invoked after the covering one returned (global event sequence numbers)"]
-    required_fired = ("cache_hit_no_rpc", "cache_made_it_possible", "legit_failure", "concurrent_groups", "covered_op", "identity_change", "many_l0", "slowconn")
+    required_fired = ("cache_hit_no_rpc", "cache_made_it_possible", "legit_failure", "concurrent_groups", "covered_op", "identity_change", "many_l0", "slowconn", "cancelled_by_caller")
 
     def cases(self, tier, seed):
         rng = prng.stream(seed, "C10")
@@ -228,7 +238,7 @@ class C10(common.Check):
         n_api = sum(1 for o in case["ops"] if o["op"] in ("protect", "unprotect"))
         return {"viol": viol, "digest": tr.world.digest(), "key": common.key_hash([case, sched]) if n_api >= 2 else None, "sched_key": sched if tr.schedule else None,
                 "fired": {"sched_choice_points": st.get("choice_points", 0), "seg": st.get("seg", 0), "clk": st.get("clk", 0), "noconn": st.get("noconn", 0),
-                          "slowconn": st.get("slowconn", 0)},
+                          "slowconn": st.get("slowconn", 0), "cancel": st.get("cancel", 0)},
                 "probes": probes, "vtime_ns": st.get("vtime_ns", 0)}
 
     def shrink(self, case):
